@@ -151,13 +151,19 @@ type leaseParty struct {
 	locker gsync.Locker
 }
 
-func newLeaseSys(ttl time.Duration, n int) (*leaseSys, []*leaseParty) {
+func newLeaseSys(ttl time.Duration, n int, mixed ...bool) (*leaseSys, []*leaseParty) {
 	s := &leaseSys{start: time.Now(), backing: inmem.New(), key: "/locks/L", stop: make(chan struct{})}
 	var ps []*leaseParty
 	for i := 1; i <= n; i++ {
 		f := &leaseFacade{s: s, p: i}
 		pr := dist.NewKvsLockProvider(f, "/locks/")
-		dist.VerifSetLeaseTTL(pr, ttl)
+		if len(mixed) > 0 && mixed[0] && i > 1 {
+			// the other parties run providers configured with a three times longer lease (their timers sit
+			// later in the process-wide timer queue than the holder's renewals)
+			dist.VerifSetLeaseTTL(pr, 3*ttl)
+		} else {
+			dist.VerifSetLeaseTTL(pr, ttl)
+		}
 		ps = append(ps, &leaseParty{fac: f, prov: pr, locker: pr.NewLocker("L")})
 	}
 	s.events = append(s.events, map[string]any{"e": "reset", "ttl": ttl.Microseconds(), "t": 0})
@@ -207,7 +213,7 @@ type leaseScenario struct {
 }
 
 func runLeaseScenario(sc leaseScenario) (*leaseSys, bool) {
-	s, ps := newLeaseSys(sc.TTL, 3)
+	s, ps := newLeaseSys(sc.TTL, 3, sc.Phase%2 == 1)
 	defer close(s.stop)
 	ttl := sc.TTL.Microseconds()
 	holder, contender, waiter := ps[0], ps[1], ps[2]
